@@ -339,6 +339,24 @@ def run(ctx):
             if not np.allclose(got_, ref_, rtol=1e-13, atol=1e-15):
                 ctx.violation({'kind': 'field-depends-on-the-storage-type-of-the-mask', 'mask_dtype': np.dtype(mdt).name, 'opd': 'scalar' if np.ndim(opd_) == 0 else 'array'},
                               {'amplitude': a0_, 'max_abs_difference': float(np.abs(got_ - ref_).max())}, case=None)
+    # an oversampling factor given as a float (its documented type): the result is the result for that factor and all three views of it
+    # can be evaluated and agree; a factor that does not give a whole number of samples is refused
+    wov = lentil.Wavefront(1e-6) * lentil.Pupil(amplitude=lentil.circle((32, 32), 12), pixelscale=1e-3, focal_length=1.0)
+    ref2 = lentil.propagate_dft(wov, pixelscale=5e-6, shape=(8, 8), oversample=2)
+    for ov in (2.0, np.float64(2), np.float32(2), 1.5):
+        ctx.case(('float-oversample', str(ov)))
+        try:
+            wi = lentil.propagate_dft(wov, pixelscale=5e-6, shape=(8, 8), oversample=ov)
+            n_ = int(round(8 * float(ov)))
+            f_, i_ = wi.field, wi.intensity
+            ins_ = wi.insert(np.zeros((n_, n_)), 3.0)
+            ok = f_.shape == (n_, n_) and np.allclose(i_, np.abs(f_) ** 2, rtol=1e-12, atol=1e-15) and np.allclose(ins_, 3.0 * i_, rtol=1e-12, atol=1e-15) \
+                and (float(ov) != 2.0 or np.allclose(f_, ref2.field, rtol=1e-12, atol=1e-14))
+            err = None
+        except Exception as ex:
+            ok, err = False, repr(ex)[:160]
+        if not ok:
+            ctx.violation({'kind': 'views-of-a-result-with-float-oversample', 'oversample': str(ov)}, {'error': err}, case=None)
     # a wavefront that has met no sampled plane yet is one constant c on an unbounded plane (Optics!ConstPhasorTerms): its intensity is
     # |c|^2 everywhere, so accumulating it into ANY array with a weight adds weight * |c|^2 to every sample
     for _ in range(30):
